@@ -708,17 +708,27 @@ func voxelRange(blockSize, begBlock, endBlock, begVoxel, endVoxel int32) (int32,
 	return v0, v1
 }
 
+// Returns the block coordinate holding a voxel coordinate.  Unlike integer division this
+// rounds down for negative voxel coordinates.
+func blockOfVoxel(v, blockSize int32) int32 {
+	b := v / blockSize
+	if v%blockSize < 0 {
+		b--
+	}
+	return b
+}
+
 // GetMask returns a binary volume of subvol size where each element is 1 if inside the ROI
 // and 0 if outside the ROI.
 func (d *Data) GetMask(ctx *datastore.VersionedCtx, subvol *dvid.Subvolume) ([]byte, error) {
 	pt0 := subvol.StartPoint()
 	pt1 := subvol.EndPoint()
-	minBlockZ := pt0.Value(2) / d.BlockSize[2]
-	maxBlockZ := pt1.Value(2) / d.BlockSize[2]
-	minBlockY := pt0.Value(1) / d.BlockSize[1]
-	maxBlockY := pt1.Value(1) / d.BlockSize[1]
-	minBlockX := pt0.Value(0) / d.BlockSize[0]
-	maxBlockX := pt1.Value(0) / d.BlockSize[0]
+	minBlockZ := blockOfVoxel(pt0.Value(2), d.BlockSize[2])
+	maxBlockZ := blockOfVoxel(pt1.Value(2), d.BlockSize[2])
+	minBlockY := blockOfVoxel(pt0.Value(1), d.BlockSize[1])
+	maxBlockY := blockOfVoxel(pt1.Value(1), d.BlockSize[1])
+	minBlockX := blockOfVoxel(pt0.Value(0), d.BlockSize[0])
+	maxBlockX := blockOfVoxel(pt1.Value(0), d.BlockSize[0])
 
 	minIndex := minIndexByBlockZ(minBlockZ)
 	maxIndex := maxIndexByBlockZ(maxBlockZ)
